@@ -715,6 +715,27 @@ func (q *qgen) queryText(graphs []string) string {
 		return fmt.Sprintf(`select ?t, count(?s) as ?n from %s where { ?s "%s"@[?t] ?o } group by ?t having %s?t %s %s;`,
 			strings.Join(graphs, ", "), id, neg, op, fmtT(tm))
 	}
+	if q.mode == "having" && !q.meta && r.chance(1, 8) {
+		// ORDER BY a column of one kind (the subjects) and a HAVING that drops rows from the middle of the ordered
+		// result: what is left is still in order
+		consts := []string{`"1"^^type:int64`, `"2"^^type:int64`, `"-3"^^type:int64`, `"10"^^type:int64`, `"-2"^^type:int64`, `"a"^^type:text`, "/u<a>", "/u<b>", "/t<a>",
+			`"1.5"^^type:float64`, `"0.25"^^type:float64`}
+		c1, c2 := consts[r.intn(len(consts))], consts[r.intn(len(consts))]
+		dir := []string{"", " asc", " desc"}[r.intn(3)]
+		hv := fmt.Sprintf("not ?o = %s", c1)
+		if r.chance(1, 2) {
+			hv = fmt.Sprintf("(not ?o = %s) and (not ?o = %s)", c1, c2)
+		}
+		var xgs []string
+		for _, g := range graphs {
+			xgs = append(xgs, hx(g))
+		}
+		q.lastProj, q.lastCls, q.lastTail, q.lastOuts = nil, nil, "", []string{"?s", "?o"}
+		q.intent = " xc=" + encClause(&semantic.GraphClause{SBinding: "?s", PBinding: "?p", OBinding: "?o"}) +
+			" xg=" + strings.Join(xgs, ",") + " xp=" + hx("?s") + "|" + hx("") + "|0|0;" + hx("?o") + "|" + hx("") + "|0|0 xob=" + hx("?s") + ":" + map[string]string{"": "0", " asc": "0", " desc": "1"}[dir] + " xlo=- xhi=-"
+		q.hist["order-then-having-drops-middle"]++
+		return fmt.Sprintf(`select ?s, ?o from %s where { ?s ?p ?o } order by ?s%s having %s;`, strings.Join(graphs, ", "), dir, hv)
+	}
 	if q.mode == "having" && !q.meta && r.chance(1, 10) {
 		// two anchors compared with each other: the same instant may be written in two zones
 		op := []string{"=", "<", ">"}[r.intn(3)]
